@@ -446,7 +446,7 @@ DescOfDet(det, loc) ==
 RECURSIVE Flatten(_)
 Flatten(ss) == IF Len(ss) = 0 THEN <<>> ELSE ss[1] \o Flatten(SubSeq(ss, 2, Len(ss)))
 
-\* fnf: the user-function failures of the run (environment facts): set of [f, loc]
+\* fnf: the user-function failures of the run (environment facts): set of [f, loc, j] (j: member index for a field conversion, else 0)
 FnDesc(f, loc) == Desc("fn", loc, f, 0, NullV, {})
 RECURSIVE Faults(_, _, _, _, _)
 Faults(n, val, loc, pk, fnf) ==
@@ -469,7 +469,7 @@ Faults(n, val, loc, pk, fnf) ==
                                                 fld == FieldsOfNode(N, cl.vi)[Route(N, cl.vi, val.e[ob.i].k)]
                                             IN IF inner # <<>> THEN inner
                                                \* a conversion only runs on a good intermediate value; its failure is one report at the field
-                                               ELSE IF fld.frm = "try" /\ [f |-> fld.fn, loc |-> ch.loc] \in fnf THEN <<FnDesc(fld.fn, ch.loc)>>
+                                               ELSE IF fld.frm = "try" /\ [f |-> fld.fn, loc |-> ch.loc, j |-> ob.i] \in fnf THEN <<FnDesc(fld.fn, ch.loc)>>
                                                ELSE <<>>
                                        ELSE IF N.deny = "fn" THEN <<FnDesc(N.denyfn, loc)>>
                                        ELSE <<Desc("unknownkey", loc, val.e[ob.i].k, 0, NullV, SeqToSet(Accepted(N, cl.vi)))>>
@@ -481,6 +481,6 @@ Faults(n, val, loc, pk, fnf) ==
                   IN Flatten([j \in 1..Len(order) |-> one(order[j])])
             [] OTHER -> <<>>
         \* a container-level try_from runs only when its input deserialized; validate only when everything before succeeded
-        withc == IF base = <<>> /\ N.c = "cfrom" /\ N.cfrom = "try" /\ [f |-> N.cfn, loc |-> loc] \in fnf THEN <<FnDesc(N.cfn, loc)>> ELSE base
-    IN IF withc = <<>> /\ N.validate /\ [f |-> N.vfn, loc |-> loc] \in fnf THEN <<FnDesc(N.vfn, loc)>> ELSE withc
+        withc == IF base = <<>> /\ N.c = "cfrom" /\ N.cfrom = "try" /\ [f |-> N.cfn, loc |-> loc, j |-> 0] \in fnf THEN <<FnDesc(N.cfn, loc)>> ELSE base
+    IN IF withc = <<>> /\ N.validate /\ [f |-> N.vfn, loc |-> loc, j |-> 0] \in fnf THEN <<FnDesc(N.vfn, loc)>> ELSE withc
 =============================================================================
